@@ -135,6 +135,43 @@ func init() {
 		w.ex.Thread("S1", func() { w.n.Send(id, "a") })
 		w.ex.Thread("S2", func() { w.n.Send(id, "b") })
 	})
+	// meta process: three messages, so that a second handler goroutine (if one is ever started) finds work
+	c01Scenario("meta-send-send2", pb, func(w *World) {
+		id, _ := w.spawnMeta("R", gen.MetaOptions{})
+		w.ex.Thread("S1", func() { w.n.Send(id, "a") })
+		w.ex.Thread("S2", func() { w.n.Send(id, "b"); w.n.Send(id, "c") })
+	})
+	// a process is killed (by pid, and by a forced stop of everything registered) while it is still in Init
+	for _, how := range []string{"kill", "kill-all-listed"} {
+		how := how
+		c01Scenario("init-vs-"+how, c01opt{qb: 2, tb: 3, preempt: true}, func(w *World) {
+			r := &rec{name: "R"}
+			w.recs["R"] = r
+			var pid gen.PID
+			known := false
+			w.ex.Thread("SP", func() {
+				w.n.Spawn(func() gen.ProcessBehavior { return &probe{} }, gen.ProcessOptions{}, probeCfg{rec: r, onInit: func(p *probe) error {
+					pid, known = p.PID(), true
+					p.Send(p.PID(), "self1")
+					p.Send(p.PID(), "self2")
+					return nil
+				}})
+			})
+			w.ex.Thread("K", func() {
+				if how == "kill" {
+					vsched.Block(vsched.OpUser, 0, func() bool { return known })
+					w.n.Kill(pid)
+					return
+				}
+				list, _ := w.n.ProcessList()
+				for _, x := range list {
+					if x.ID >= 1000 {
+						w.n.Kill(x)
+					}
+				}
+			})
+		})
+	}
 	// meta process: Start() returns (=> termination) while a message is being delivered
 	c01Scenario("meta-startreturns-send", pb, func(w *World) {
 		id, mp := w.spawnMeta("R", gen.MetaOptions{})
